@@ -30,6 +30,10 @@ def akai_image(names, lens, rates="same", hdr=None):
             files[-1]["hdr"] = {"sname": names[(i + 1) % len(names)].strip() or "X"}
         elif hdr == "lr":
             files[-1]["hdr"] = {"sname": "DRUM " + "LR"[i % 2]}
+        elif hdr == "flavours":
+            # S1000-type and S3000-type samples side by side in one volume
+            if i % 2:
+                files[-1]["sid"], files[-1]["ftype"] = 1, 0x73
     spec = {"parts": [{"vols": [{"name": "VOL", "dir": [3], "files": files}]}]}
     model = A.model_from_spec(spec)
     img, _ = A.build_akai(model)
@@ -146,7 +150,7 @@ class Check(CheckBase):
             "volume, 14 names, k<=3 (quick) / k<=4 (thorough), plus all 4-tuples over the reduced 6-name alphabet and over {A-L, A -R, A -L, A-R}; Roland "
             "performance, 11 names (incl. lower-case 'l' / 'r' endings, which are not L/R forms), k<=2 (quick) / k<=3 (thorough); equal lengths (10 frames), and unequal lengths, differing sample "
             "rates, single-frame samples and samples of 2049 frames (one more than the transcoder block) for k<=2 (quick) / "
-            "all (thorough); AKAI header names that differ from the directory names (rotated among the siblings / 'DRUM L', 'DRUM R') "
+            "all (thorough); AKAI header names that differ from the directory names (rotated among the siblings / 'DRUM L', 'DRUM R'), S1000- and S3000-type samples mixed in one volume, "
             "for k<=2 over 14 names and k=3 over 6; 2- and 3-tuples over 8 names that become an L/R form only when a trailing dot / blank is "
             "dropped (conservation only: nothing lost, nothing written twice); large directories: 201 AKAI siblings (70 Roland) with an L/R pair at every pair of adjacent positions "
             "and at far-apart positions. Oracle: every sample's position-coded PCM in exactly one channel of exactly one file; channel sum = "
@@ -169,7 +173,7 @@ class Check(CheckBase):
                     cases.append({"fmt": "akai", "names": list(t), "lens": "block1"})
         for k in (1, 2, 3):
             for t in itertools.product(AKAI_NAMES if k < 3 else AKAI_N4, repeat=k):
-                for hdr in ("rot", "lr"):
+                for hdr in ("rot", "lr", "flavours"):
                     cases.append({"fmt": "akai", "names": list(t), "lens": "eq", "hdr": hdr})
         # names that become an L/R form only after sanitising (trailing dot / blank dropped), every order, next to real forms
         san = ["A-L .", "A-R .", "A-L.", "A L .", "A-R", "A-L", "A .", "A"]
